@@ -329,7 +329,7 @@ impl Check for C02 {
     fn phases(&self, tier: Tier, b: f64) -> Vec<Phase> {
         let q = tier == Tier::Quick;
         vec![
-            Phase { name: "carriers of every type with independently styled protected headers at every position (nesting <= 3)", cases: scale(if q { 12000 } else { 500000 }, b), exhaustive: false },
+            Phase { name: "carriers of every type with independently styled protected headers at every position (nesting <= 3)", cases: scale(if q { 96000 } else { 500000 }, b), exhaustive: false },
             Phase { name: "the five empty-header forms (40, 41a0, 42bfff, 42b800, built-canonical) x every position class", cases: 12 * 5, exhaustive: true },
         ]
     }
